@@ -234,7 +234,7 @@ func xuperSignRules(c *q.Ctx) {
 		c.Guard(xs, q.Cond{Canon: "(len(p1.XuperSign.PublicKeys) == len(*p1.Initiator*))", Sense: false}, q.ToSuccess(), q.Opt{})
 		// every name that comes back as a verified identity is in the list that is matched against the public keys:
 		// the initiator unconditionally, each auth_require signer once
-		c.Effect(xs, q.Eff{Spec: "append", Arg: 1, Glob: "[p1.Initiator]", Exact: true, Why: "the initiator is always among the addresses a key must match", Rule: "K2"})
+		c.Guard(xs, q.Cond{Canon: "(len(p1.XuperSign.PublicKeys) == len(phi{[p1.Initiator]|append(loop,[strings.Split(p1.AuthRequire[],\"/\")[last]])|loop}))", Sense: false}, q.ToSuccess(), q.Opt{})
 		c.MapStoreKeys(xs, "newmap<map[string]bool>", []string{"p1.Initiator", "strings.Split(p1.AuthRequire[],\"/\")[last]"}, "the verified set holds the initiator and the last element of each signer path, nothing else")
 		c.ArgIs(xs, "VerifyXuperSignature", 1, "p1.XuperSign.Signature", 1, "the aggregated signature of the transaction")
 		c.ArgIs(xs, "VerifyXuperSignature", 2, "p2", 1, "over the digest passed in")
